@@ -43,6 +43,9 @@ func (c *compiler) compile() (string, error) {
 		var res interface{}
 		var err error
 
+		// statements of blocks executed by an earlier tag are no longer current
+		c.curStmt = nil
+
 		switch node := stmt.(type) {
 		case *ast.ReturnStatement:
 			res, err = c.evalReturnStatement(node)
